@@ -692,3 +692,33 @@ pub fn run_c05(tier: Tier) -> i32 {
     report.assume("document menu chosen to force cache-key collisions: same clause under two languages, at two offsets, inside/outside quotes, with/without a following clause");
     report.finish()
 }
+
+/// Replay entry points: one history, no explorer.
+pub fn replay_c16(case: &Value) -> Vec<(String, Value)> {
+    let ops = wops();
+    let seq: Vec<usize> = case["ops"].as_array().map(|a| a.iter().filter_map(|x| x.as_u64().map(|v| v as usize)).collect()).unwrap_or_default();
+    if seq.iter().any(|i| *i >= ops.len()) {
+        return vec![("bad-replay-file".into(), json!({}))];
+    }
+    let mut cache = RefCache { groups: HashMap::new(), results: HashMap::new() };
+    match catch(|| run_w_history(&ops, &seq, &mut cache)) {
+        Ok((Some(p), _, _)) => vec![p],
+        Ok((None, _, _)) => vec![],
+        Err(p) => vec![(format!("panic:{}", msg_class(&p.msg)), json!({"msg": p.msg}))],
+    }
+}
+
+pub fn replay_c05(case: &Value) -> Vec<(String, Value)> {
+    let ops = gops(Tier::Thorough);
+    let seq: Vec<usize> = case["ops"].as_array().map(|a| a.iter().filter_map(|x| x.as_u64().map(|v| v as usize)).collect()).unwrap_or_default();
+    if seq.iter().any(|i| *i >= ops.len()) {
+        return vec![("bad-replay-file".into(), json!({}))];
+    }
+    let dict = FstDictionary::curated();
+    let mut fresh: HashMap<String, Vec<LKey>> = HashMap::new();
+    match catch(|| run_g_history(&ops, &seq, &dict, &mut fresh)) {
+        Ok((Some(p), _, _)) => vec![p],
+        Ok((None, _, _)) => vec![],
+        Err(p) => vec![(format!("panic:{}", msg_class(&p.msg)), json!({"msg": p.msg}))],
+    }
+}
